@@ -80,8 +80,90 @@ Definition is_ipv4 (h : bytes) : bool :=
   | [a; b; c; d] => is_octet a && is_octet b && is_octet c && is_octet d
   | _ => false
   end.
-(* After getHostname a ':' can only come from an IPv6 literal (reg-names and IPv4 have none) *)
-Definition is_ip_literal (h : bytes) : bool := mem_byte colon h || is_ipv4 h.
+(* --- netip.ParseAddr (Go 1.23.5 net/netip/netip.go), success or failure only --- *)
+Definition pct : byte := "%"%byte.
+
+Definition is_hex (c : byte) : bool :=
+  is_digit c || ((97 <=? bN c)%N && (bN c <=? 102)%N) || ((65 <=? bN c)%N && (bN c <=? 70)%N).
+
+(* length of the leading run of hex digits *)
+Fixpoint span_hex (s : bytes) : nat :=
+  match s with c :: r => if is_hex c then S (span_hex r) else 0 | [] => 0 end.
+
+(* after the loop of parseIPv6: the whole string must be used; fewer than 16 bytes need an
+   ellipsis, exactly 16 must not have one ("the :: must expand to at least one field of zeros") *)
+Definition v6_finish (i : nat) (ell : bool) (s : bytes) : bool :=
+  match s with
+  | _ :: _ => false
+  | [] => if i <? 16 then ell else negb ell
+  end.
+
+(* the loop `for i < 16`: [i] bytes of the address filled so far, [ell] an ellipsis was seen,
+   [s] the unparsed rest *)
+Fixpoint v6_groups (fuel i : nat) (ell : bool) (s : bytes) : bool :=
+  match fuel with
+  | O => false
+  | S f =>
+      if 16 <=? i then v6_finish i ell s else
+      let off := span_hex s in
+      if 5 <=? off then false                       (* more than 4 digits in a group *)
+      else if off =? 0 then false                   (* a field needs at least one digit *)
+      else
+        match skipn off s with
+        | [] => v6_finish (i + 2) ell []            (* end of string after a group *)
+        | c :: after =>
+            if beqb c dot then                      (* trailing embedded IPv4, parsed from the group's start *)
+              if negb ell && negb (i =? 12) then false
+              else if 16 <? i + 4 then false
+              else if is_ipv4 s then v6_finish (i + 4) ell [] else false
+            else if negb (beqb c colon) then false  (* unexpected character, want colon *)
+            else
+              match after with
+              | [] => false                         (* colon must be followed by more characters *)
+              | c2 :: r2 =>
+                  if beqb c2 colon then
+                    if ell then false               (* multiple :: *)
+                    else match r2 with
+                         | [] => v6_finish (i + 2) true []   (* :: can be at the end *)
+                         | _ => v6_groups f (i + 2) true r2
+                         end
+                  else v6_groups f (i + 2) ell after
+              end
+        end
+  end.
+
+Definition parse_v6_ok (input : bytes) : bool :=
+  match (match index_byte pct input with
+         | Some i => if Nat.eqb (S i) (length input) then None   (* empty zone *)
+                     else Some (firstn i input)
+         | None => Some input
+         end) with
+  | None => false
+  | Some s =>
+      match s with
+      | c1 :: c2 :: r =>
+          if beqb c1 colon && beqb c2 colon then
+            match r with [] => true | _ => v6_groups (S (length r)) 0 true r end
+          else v6_groups (S (length s)) 0 false s
+      | _ => v6_groups (S (length s)) 0 false s
+      end
+  end.
+
+(* ParseAddr dispatches on the first '.', ':' or '%' *)
+Fixpoint first_sep (s : bytes) : option byte :=
+  match s with
+  | [] => None
+  | c :: r => if beqb c dot || beqb c colon || beqb c pct then Some c else first_sep r
+  end.
+
+Definition parse_addr_ok (s : bytes) : bool :=
+  match first_sep s with
+  | Some c => if beqb c dot then is_ipv4 s else if beqb c colon then parse_v6_ok s else false
+  | None => false
+  end.
+
+(* `_, err := netip.ParseAddr(h); err == nil` *)
+Definition is_ip_literal (h : bytes) : bool := parse_addr_ok h.
 
 (* redirect.go getDomain (repaired): IP literals whole; DNS names drop the first label
    when there are at least three *)
